@@ -145,6 +145,9 @@ func (w *verifWorld) inv(check func(bool, string)) {
 		}
 	}
 	for j := 0; j < vR; j++ {
+		for j2 := j + 1; j2 < vR; j2++ {
+			check(w.refs[j].subConn != w.refs[j2].subConn, "C01,C03: I-pool two channels own the same connection")
+		}
 		check(w.refs[j].subConn != nil, "C05: I-pool slot without a connection")
 		check(w.refs[j].stateSignal != nil, "C06,C09: I-sig nil state signal")
 	}
